@@ -32,13 +32,13 @@ func genC20(seed uint64, index int, tier string) C20Cfg {
 		devs := []string{"early-reveal", "early-reveal", "duplicate", "late-share", "second-commit", "none", "none", "withhold", "malformed"}
 		c.Deviation = devs[r.Intn(len(devs))]
 		c.Concurrent = true
-		c.Deploy.QuietLog = true
+		c.Deploy.QuietLog, c.Deploy.QuietRec = true, true
 		c.Strategy = pickStr(r, []string{"uniform", "bursty", "lifo-links", "starve-node", "acks-first", "pct"})
 		return C20Cfg{Kind: "dkg-byz", Sub: mustJSON(c)}
 	}
 	c := genC12(seed, tier)
 	c.Serial = false
-	c.Deploy.QuietLog = true
+	c.Deploy.QuietLog, c.Deploy.QuietRec = true, true
 	// half of the histories (of 3 or more nodes) begin with a signing session that gets a member too many
 	if len(c.Deploy.IDs) >= 3 && r.Bool(0.5) {
 		if c.Deploy.Threshold+1 >= len(c.Deploy.IDs) {
